@@ -448,21 +448,20 @@ def run : Nat → Task → M Out
         throw stop
     | .field o name idx => do
       let key := (o, name, idx)
+      -- the object's assertions come first: one of them may read (and cache) this very field
+      let _ ← run n (.asserts o)
       let s ← get
       let cached := s.cache.find? (fun p => p.1.1 == o && p.1.2.1 == name && p.1.2.2 == idx)
       let proceed : Bool ← match cached with
         | some (_, .val v) => return (.oval v)
         | some (_, .failed e) => throw (.err e)
-        | some (_, .pending) =>
-          if s.asserting.contains o then pure true
-          else fail "infrec" "infinite recursion detected"
+        | some (_, .pending) => fail "infrec" "infinite recursion detected"
         | none => pure true
       if !proceed then undecided "internal" else
       modify fun s => { s with cache := (key, .pending) :: s.cache }
       let setCache (v : CacheV) : M Unit :=
         modify fun s => { s with cache := (key, v) :: s.cache.filter (fun p => !(p.1.1 == o && p.1.2.1 == name && p.1.2.2 == idx)) }
       try
-        let _ ← run n (.asserts o)
         let layers ← layersOf o
         -- the unmasked definitions below `idx`, top-most first, down to the first plain one
         let mut vals : List Val := []
